@@ -2,6 +2,11 @@ import RV.C14.Lemmas
 import RV.C14.SkolemLemmas
 import RV.C14.CanonLemmas
 import RV.C14.SearchLemmas
+import RV.C14.RefineLemmas
+import RV.C14.RefineEquiv
+import RV.C14.RefineStable
+import RV.C14.RefineStable2
+import RV.C14.RefineWitness
 /-
   C14 — property statements and theorems.
 
@@ -205,6 +210,142 @@ example : distinguishItems 5 [(b 1, p, b 2), (b 2, p, b 3)] [b 1, b 2, b 3] (b 2
     [.inn 5 p, .out p 5] := by decide
 example : distinguishItems 5 [(b 1, p, b 2), (b 2, p, b 3)] [b 1, b 2, b 3] (b 1) = [.out p 5] := by decide
 
+
+/-! ## The worklist loop of `_refine` (RV/C14/Canon.lean `refineStep` / `refinePass` / `refineLoop` / `refine`)
+
+    `RefineRun` (RefineLemmas.lean) is the fuel-free big-step semantics of
+    `while len(sequence) > 0 and not self._discrete(coloring): W = sequence.pop(); for c in coloring[:]: …`. -/
+
+/-- the loop TERMINATES: for every colouring whose colours are non-empty and every sequence the `while` loop has a run,
+    the run is unique, and the fuelled `refineLoop` computes its result as soon as the fuel reaches
+    `refineFuel = len(sequence) + (number of nodes - number of colours) + 1` (every iteration pops one splitter and pushes
+    exactly one per newly created cell, and there are never more cells than nodes) -/
+def Statement_refine_terminates : Prop :=
+  ∀ (H : List Item → Nat) (HT : Term → Nat) (g : Graph) (P S : List Color), WFc P →
+    ∀ fuel, refineFuel P S ≤ fuel →
+      RefineRun H HT g P S (refineLoop H HT g fuel P S) ∧
+      ∀ R, RefineRun H HT g P S R → R = refineLoop H HT g fuel P S
+
+/-- the result REFINES the input colouring: colours stay non-empty, the nodes are the same multiset (nothing lost,
+    nothing duplicated), every resulting colour lies inside one input colour; and when the resulting colour hashes are
+    pairwise distinct the collision merge at the end of `_refine` changes nothing -/
+def Statement_refine_refines : Prop :=
+  ∀ (H : List Item → Nat) (HT : Term → Nat) (g : Graph) (fuel : Nat) (P S : List Color), WFc P →
+    WFc (refineLoop H HT g fuel P (sortDesc H HT S)) ∧
+    (allNodes (refineLoop H HT g fuel P (sortDesc H HT S))).Perm (allNodes P) ∧
+    SubCells (refineLoop H HT g fuel P (sortDesc H HT S)) P ∧
+    (((refineLoop H HT g fuel P (sortDesc H HT S)).map (Color.hash H HT)).Nodup →
+      refine H HT g fuel P S = refineLoop H HT g fuel P (sortDesc H HT S))
+
+/-- the call made by `canonical_triples` (`_refine(coloring, coloring[:])` on `_initial_color()`) meets the
+    hypotheses: its colours are non-empty and `refineInit` runs with enough fuel -/
+def Statement_refineInit_runs : Prop :=
+  ∀ (H : List Item → Nat) (HT : Term → Nat) (g : Graph),
+    WFc (initialColor g) ∧
+    RefineRun H HT g (initialColor g) (sortDesc H HT (initialColor g))
+      (refineLoop H HT g (refineFuel (initialColor g) (initialColor g)) (initialColor g)
+        (sortDesc H HT (initialColor g)))
+
+theorem refine_terminates : Statement_refine_terminates := by
+  intro H HT g P S hwf fuel hf
+  have h := refineLoop_run H HT g fuel P S hwf hf
+  exact ⟨h, fun R hR => RefineRun_det hR h⟩
+
+theorem refine_refines : Statement_refine_refines := by
+  intro H HT g fuel P S hwf
+  obtain ⟨a, b, c⟩ := refineLoop_spec H HT g fuel P (sortDesc H HT S) hwf
+  refine ⟨a, b, c, fun hnd => ?_⟩
+  unfold refine
+  have := mergeByHash_id H HT (refineLoop H HT g fuel P (sortDesc H HT S)) [] (by simpa using hnd)
+  simpa using this
+
+theorem refineInit_runs : Statement_refineInit_runs := by
+  intro H HT g
+  have hf : refineFuel (initialColor g) (sortDesc H HT (initialColor g)) =
+      refineFuel (initialColor g) (initialColor g) := by
+    unfold refineFuel
+    rw [sortDesc_length]
+  exact ⟨initialColor_wf g, refineLoop_run H HT g _ _ _ (initialColor_wf g) (Nat.le_of_eq hf)⟩
+
+/-- non-vacuity: on the directed path 1→2→3 the loop separates all three nodes (and needs more than one iteration) -/
+example : refinePartition [(b 1, p, b 2), (b 2, p, b 3)] = [[3], [1], [2]] := by decide
+example : refinePartition [(b 1, p, b 2), (b 2, p, b 3), (b 3, p, b 1)] = [[1, 2, 3]] := by decide
+
+/-- STABILITY, full strength: under the explicit hypothesis that the colour hash is injective on multisets of items
+    (`MultisetInj H`: H a = H b → a ~ b; `hash_color` is a sum of SHA-256 values), the colouring the loop returns for the
+    call of `canonical_triples` is stable — no colour can be split by any colour of the final partition: for every
+    splitter `W` and every colour `c` of the result, all members of `c` have the same multiset of (direction, predicate)
+    edges into `W`.  Proof (RefineStable2.lean): worklist invariant `WInv` — every colour `X` is in the sequence, or the
+    colouring is stable against `X ∪ Ys` for colours `Ys` that are all in the sequence (at the start everything is in the
+    sequence; a pass keeps the invariant because all children of a colour that was in the sequence are pushed, all
+    children but the first of any other colour are pushed, the pass makes everything stable against the popped `W`, and
+    stability against `A ∪ B` and `B` gives stability against `A`); at `sequence = []` this is stability, and the early
+    exit at a discrete colouring is stable outright. -/
+def Statement_refine_stable : Prop :=
+  ∀ (H : List Item → Nat) (HT : Term → Nat) (g : Graph), MultisetInj H →
+    Stable H HT g (refineLoop H HT g (refineFuel (initialColor g) (initialColor g)) (initialColor g)
+      (sortDesc H HT (initialColor g)))
+
+/-- STABILITY, the local facts (any colouring, any sequence): (i) after every pass of the loop, every colour of the new colouring is stable
+    with respect to the splitter `W` that was popped for this pass (all members have the same multiset of edges into
+    `W`) — under `MultisetInj H`; (ii) a discrete colouring (the early exit of the loop) is stable outright -/
+def Statement_refine_stable_partial : Prop :=
+  (∀ (H : List Item → Nat) (HT : Term → Nat) (g : Graph), MultisetInj H → ∀ (W : Color) (P S : List Color),
+    ∀ c' ∈ (refinePass H HT g W P S).1, StableWrt g (W.hash H HT) W.nodes c') ∧
+  (∀ (H : List Item → Nat) (HT : Term → Nat) (g : Graph) (cs : List Color),
+    cs.all Color.discrete = true → Stable H HT g cs)
+
+theorem refine_stable : Statement_refine_stable :=
+  fun _ HT g hH => refineInit_stable hH HT g
+
+/-- non-vacuity of the hypothesis: a hash that is injective on multisets of items exists (the encoding of the multiset
+    of item codes, RefineWitness.lean) -/
+example : ∃ H : List Item → Nat, MultisetInj H := ⟨witnessHash, multisetInj_witness⟩
+
+theorem refine_stable_partial : Statement_refine_stable_partial :=
+  ⟨fun _ HT g hH W P S => refinePass_stable hH HT g W P S, stable_of_discrete⟩
+
+/-- non-vacuity of (i): in the 3-cycle all nodes see one out- and one in-edge into the cell {1,2,3} -/
+example : StableWrt [(b 1, p, b 2), (b 2, p, b 3), (b 3, p, b 1)] 5 [b 1, b 2, b 3] ⟨[b 1, b 2, b 3], [], none⟩ := by
+  intro n hn m hm
+  simp only [List.mem_cons, List.not_mem_nil, or_false] at hn hm
+  rcases hn with rfl | rfl | rfl <;> rcases hm with rfl | rfl | rfl <;> decide
+
+/-- the whole `_refine` computation is EQUIVARIANT under blank-node renaming, for arbitrary hash functions: for `σ`
+    injective on the blank nodes of `g` (no blank predicates), running `_refine` on the renamed graph from the renamed
+    colouring and sequence gives exactly the renamed result — the same cells in the same order with the same colour
+    tuples and hashes; in particular for the call of `canonical_triples` (`refineInit`, which includes `_initial_color`).
+    (What is NOT covered: that the result does not depend on the iteration order of Python's sets and of the store —
+    `refine_equivariant` shows it for one `distinguish` round, `canonSearch_equivariant` for the exhaustive search.) -/
+def Statement_refine_rename_equivariant : Prop :=
+  ∀ (H : List Item → Nat) (HT : Term → Nat) (σ : Nat → Nat) (g : Graph), InjOn σ (bnodes g) → NoBlankPred g →
+    (∀ (fuel : Nat) (P S : List Color), InG g P → InG g S →
+      refine H HT (g.rename σ) fuel (P.map (mapColor (Term.rename σ))) (S.map (mapColor (Term.rename σ))) =
+        (refine H HT g fuel P S).map (mapColor (Term.rename σ))) ∧
+    refineInit H HT (g.rename σ) = (refineInit H HT g).map (mapColor (Term.rename σ))
+
+/-- `canon_complete`, PARTIAL, for rdflib's own canonicaliser on the path without search: if the initial refinement
+    already separates all blank nodes of `g` (every blank node is the first member of a colour, i.e. `_discrete`), the
+    canonical triples do not depend on the blank-node labels: `canonical_triples(σ g) = canonical_triples(g)` for every
+    injective relabelling `σ`, as lists.  Exact hypothesis: `h` is `g.rename σ` (same triple order) and refinement
+    reaches a discrete colouring; the general `Statement_canon_complete` stays open. -/
+def Statement_canon_complete_partial : Prop :=
+  ∀ (H : List Item → Nat) (HT : Term → Nat) (σ : Nat → Nat) (g : Graph), InjOn σ (bnodes g) → NoBlankPred g →
+    (∀ a ∈ bnodes g, ∃ c ∈ refineInit H HT g, ∃ rest, c.nodes = ⟨true, a⟩ :: rest) →
+    canonRefine H HT (g.rename σ) = canonRefine H HT g
+
+theorem refine_rename_equivariant : Statement_refine_rename_equivariant :=
+  fun H HT _ _ hinj hp =>
+    ⟨fun fuel P S hP hS => refine_rename hinj hp H HT fuel P S hP hS, refineInit_rename hinj hp H HT⟩
+
+theorem canon_complete_partial : Statement_canon_complete_partial :=
+  fun H HT _ _ hinj hp hcov => canonRefine_rename hinj hp H HT (fun a ha => keys_canonLabels (hcov a ha))
+
+/-- non-vacuity: the path 1→2→3 is refined to a discrete colouring, and relabelling it (1,2,3 ↦ 7,5,9) gives literally
+    the same canonical triples -/
+example : refineDiscrete sumHash termHash [(b 1, p, b 2), (b 2, p, b 3)] = true := by decide +kernel
+example : canonRefine sumHash termHash [(b 7, p, b 5), (b 5, p, b 9)] =
+    canonRefine sumHash termHash [(b 1, p, b 2), (b 2, p, b 3)] := by decide +kernel
 
 /-! ## The exhaustive individualisation–refinement search `canonSearch` (RV/C14/Search.lean)
 
